@@ -365,13 +365,13 @@ def dump_jobs(th):
     if th:
         full = (-99, 99)
         for zone in ZONES:
-            D(mode=g, src_rep="cal", dform="cal-ext", tform="ext", zone=zone, ranges={"M": (12, 12), "D": (30, 31)}, tzh=full)
-            D(mode=g, src_rep="cal", dform="cal-bas", tform="bas", zone=zone, ranges={"M": (1, 1), "D": (1, 2)}, tzh=full)
+            D(mode=g, src_rep="cal", dform="cal-ext", tform="ext", zone=zone, ranges={"M": (12, 12), "D": (31, 31)}, tzh=full)
+            D(mode=g, src_rep="cal", dform="cal-bas", tform="bas", zone=zone, ranges={"M": (1, 1), "D": (1, 1)}, tzh=full)
             D(mode=g, src_rep="ord", dform="ord-ext", tform="ext", zone=zone, ranges={"DOY": (365, 366)}, tzh=full)
             D(mode=g, src_rep="ord", dform="xord-bas", tform="bas", zone=zone, ranges={"DOY": (1, 1)}, tzh=z14)
             D(mode=g, src_rep="week", dform="week-ext", tform="ext", zone=zone, ranges=dict(W_PINS, W=(52, 53)), tzh=full)
             D(mode=g, src_rep="week", dform="week-bas", tform="bas", zone=zone, ranges=dict(W_PINS2, W=(1, 1)), tzh=full)
-        for m in range(1, 13):
+        for m in (2, 6, 9, 12):
             D(mode=g, src_rep="cal", dform="cal-ext", tform="ext", zone="+05:30", ranges={"M": (m, m)}, tzh=z14)
             D(mode="360day", src_rep="cal", dform="cal-bas", tform="bas", zone="-0330", ranges={"M": (m, m)}, tzh=z14)
     return J
@@ -430,7 +430,8 @@ INFO = {
                          "years": "-1 000 000..999 999", "offsets": "source and destination -99:59..+99:59 (week dates: +-14:59)",
                          "dates": "ordinal: all; calendar: all months (gregorian), Feb and Dec (other modes); week dates: gregorian",
                          "direct ==/-": "gregorian ordinal days 1-3 and 364-366, offsets +-14:59"},
-               "thorough": {"dates": "calendar all months in all modes; week dates in all modes with offsets +-30:59"}},
+               "thorough": {"dates": "calendar all months in all modes; week dates in all modes with offsets +-30:59",
+                            "dump formats": "all 14 literal zones x 6 date/time forms at the year boundary with source offsets -99:59..+99:59; whole months 2, 6, 9, 12"}},
     "outside": ["literal-zone dump formats: arbitrary offsets inside format strings and dates away from the listed windows "
                 "(the literal spellings are a fixed set of 14; the re-parse of such dumps is C08's job_format)",
                 "to_local_time_zone (checked under C18 with the stubbed system zone)", "fractional seconds"],
